@@ -267,6 +267,13 @@ def runCacheOp (s : Cache) (kv : KV) : Except String (Cache × Out) := do
       s.pending.contains (some p.1) || s.created.contains p.1)
     let cntOk := s.count == (s.rows.length : Int) && s.size == Cache.sumSizesB s.rows
     if refOk && orphanOk && cntOk then pure (s, .list []) else pure (s, .exc "Inconsistent")
+  | "reopen" => pure (s, .none)     -- close/reopen, pickling, a second handle: identity on the directory
+  | "pickle" => pure (s, .none)
+  | "second" => pure (s, .none)
+  | "settings" =>
+    let pol := match s.cfg.policy with | .none => "none" | .lrs => "lrs" | .lru => "lru" | .lfu => "lfu"
+    pure (s, .tup [.val (.str (pol.toList.map Char.toNat)), .int s.cfg.cullLimit, .int (s.cfg.limN / s.cfg.limD),
+                   .int s.cfg.minFileSize, .int (if s.statistics then 1 else 0)])
   | "len" => pure s.len
   | "volume" => pure s.volumeOp
   | "stats" => pure (s.stats (parseBool (kv.getD "enable" "1")) (parseBool (kv.getD "reset" "0")))
